@@ -349,6 +349,14 @@ impl C05 {
                         return;
                     }
                 }
+                if l.acc.iter().any(|x| x.0 == "views_consistent" && x.1 == 0) {
+                    rep.violation(
+                        &format!("lax_views_inconsistent|{}", name),
+                        format!("{}: LaxNetSlice::ip_payload_ref / vlan() disagree with the fields they are views of", name),
+                        &case.bytes,
+                    );
+                    return;
+                }
                 if !s.acc.is_empty() {
                     rep.count("strict_ok_lax_accessors_same");
                 }
@@ -667,6 +675,7 @@ impl Monitor for C05 {
             ("big", tier.pick(30_000, 1_500_000)),
             ("bytesweep", tier.pick(5_000, 300_000)),
             ("wordsweep", tier.pick(64, 4_000)),
+            ("quoted", tier.pick(300_000, 30_000_000)),
         ]
     }
 
@@ -734,7 +743,112 @@ impl Monitor for C05 {
                 self.ip_level(rep, &case.bytes);
             }
             "single" => self.single(rep, rng),
+            "quoted" => self.quoted(rep, rng),
             _ => {}
+        }
+    }
+}
+
+impl C05 {
+    /// The use case lax decoding exists for: the packet quoted in an ICMPv6 error message. The
+    /// typed views (`icmpv6::{DestinationUnreachable,PacketTooBig,TimeExceeded,ParameterProblem}
+    /// PayloadSlice`) each carry their own `as_lax_ip_slice()`; it has to answer exactly like
+    /// `LaxIpSlice::from_slice` on the quoted bytes (which the other engines judge against R), and
+    /// the quoted bytes are everything behind the 8 octet ICMPv6 header.
+    fn quoted(&mut self, rep: &mut Report, rng: &mut Prng) {
+        let quoted: Vec<u8> = if rng.chance(1, 3) {
+            // complete packets of more than the IPv6 minimum MTU (an ICMPv6 error quotes "as much
+            // as fits", but nothing forbids a longer message)
+            let pl = rng.range(1000, 3000) as usize;
+            let mut b: Vec<u8> = Vec::with_capacity(pl + 48);
+            if rng.bool() {
+                let total = (20 + 8 + pl) as u16;
+                b.extend_from_slice(&[0x45, rng.u8()]);
+                b.extend_from_slice(&total.to_be_bytes());
+                b.extend_from_slice(&rng.bytes(4));
+                b[6] &= 0x40;
+                b[7] = 0;
+                b.extend_from_slice(&[rng.u8(), 17, rng.u8(), rng.u8()]);
+                b.extend_from_slice(&rng.bytes(8));
+            } else {
+                b.extend_from_slice(&[0x60, 0, 0, 0]);
+                b.extend_from_slice(&((8 + pl) as u16).to_be_bytes());
+                b.extend_from_slice(&[17, rng.u8()]);
+                b.extend_from_slice(&rng.bytes(32));
+            }
+            b.extend_from_slice(&rng.bytes(4));
+            b.extend_from_slice(&((8 + pl) as u16).to_be_bytes());
+            b.extend_from_slice(&rng.bytes(2));
+            b.extend_from_slice(&rng.bytes(pl));
+            if rng.chance(1, 3) {
+                let cut = rng.usize_below(b.len());
+                b.truncate(cut);
+            }
+            rep.count("quoted.long_packets");
+            b
+        } else {
+            let mut o = if rng.bool() { GenOpts::clean() } else { GenOpts::hostile() };
+            o.start = StartSel::Ip;
+            gen::gen_case(rng, &o).bytes
+        };
+        let typ = 1 + rng.below(4) as u8;
+        let mut msg = vec![typ, rng.below(8) as u8];
+        msg.extend_from_slice(&rng.bytes(6));
+        msg.extend_from_slice(&quoted);
+        rep.evals += 1;
+        shell::progress_entry(560 + typ as u64);
+        let res = shell::guarded(|| -> Result<(&'static str, bool, iplevel::IpOut, iplevel::IpOut), String> {
+            let s = Icmpv6Slice::from_slice(&msg).map_err(|e| format!("Icmpv6Slice::from_slice: {:?}", e))?;
+            let p = s.payload_slice().map_err(|e| format!("payload_slice: {:?}", e))?;
+            use etherparse::icmpv6::Icmpv6PayloadSlice as P;
+            let (name, inv, r) = match &p {
+                P::DestinationUnreachable(v) => ("DestinationUnreachable", v.invoking_packet(), v.as_lax_ip_slice()),
+                P::PacketTooBig(v) => ("PacketTooBig", v.invoking_packet(), v.as_lax_ip_slice()),
+                P::TimeExceeded(v) => ("TimeExceeded", v.invoking_packet(), v.as_lax_ip_slice()),
+                P::ParameterProblem(v) => ("ParameterProblem", v.invoking_packet(), v.as_lax_ip_slice()),
+                // codes without a typed view
+                P::Raw(_) => return Err("raw".into()),
+                other => return Err(format!("type {} gives the view {:?}", typ, other)),
+            };
+            let whole = inv.as_ptr() as usize == msg.as_ptr() as usize + 8 && inv.len() == msg.len() - 8;
+            let a = iplevel::lax_ip_result(r, &mut Cx::new(inv), false);
+            let b = iplevel::decode(IpEntry::LaxIpSlice, inv, &mut Cx::new(inv), false);
+            Ok((name, whole, a, b))
+        });
+        match res {
+            Err(p) => note_abnormal(rep, "icmpv6 as_lax_ip_slice", &p),
+            Ok(Err(e)) if e == "raw" => rep.count("quoted.code_without_typed_view"),
+            Ok(Err(e)) => rep.selfcheck_fail(format!("quoted: {}", e)),
+            Ok(Ok((name, whole, a, b))) => {
+                rep.count(&format!("quoted.{}", name));
+                if !whole {
+                    rep.violation(
+                        &format!("quoted|{}|invoking_packet_range", name),
+                        format!("{}PayloadSlice::invoking_packet() is not the {} octets behind the ICMPv6 header", name, msg.len() - 8),
+                        &msg,
+                    );
+                    return;
+                }
+                if a.out != b.out || a.pay != b.pay {
+                    rep.violation(
+                        &format!("quoted|{}|as_lax_ip_slice_differs", name),
+                        format!(
+                            "{}PayloadSlice::as_lax_ip_slice() = {:?} / {:?} but LaxIpSlice::from_slice(invoking_packet()) = {:?} / {:?}",
+                            name, a.out, a.pay, b.out, b.pay
+                        ),
+                        &msg,
+                    );
+                    return;
+                }
+                if b.out.err.is_none() {
+                    rep.count("quoted.decoded_same_as_lax_ip_slice");
+                    if b.pay.incomplete == Some(true) {
+                        rep.count("quoted.incomplete_flagged");
+                    }
+                } else {
+                    rep.count("quoted.rejected_same_as_lax_ip_slice");
+                }
+            }
         }
     }
 }
